@@ -575,7 +575,7 @@ func mergeSubresource(cur, upd runtime.Object, sub string) runtime.Object {
 			out.Status = *u.Status.DeepCopy()
 		} else {
 			out.Spec = *u.Spec.DeepCopy()
-			out.Labels, out.Annotations, out.Finalizers = copyStrMap(u.Labels), copyStrMap(u.Annotations), append([]string(nil), u.Finalizers...)
+			out.Labels, out.Annotations, out.Finalizers, out.OwnerReferences = copyStrMap(u.Labels), copyStrMap(u.Annotations), append([]string(nil), u.Finalizers...), append([]metav1.OwnerReference(nil), u.OwnerReferences...)
 		}
 		return out
 	}
